@@ -507,6 +507,11 @@ func StrEq(a, b *Term) *Term {
 	if a.id > b.id {
 		a, b = b, a
 	}
+	if a.kind == 'b' && b.kind == 'b' {
+		// two quantified variables: plain equality (streq s t <=> s = t by the prelude). Using streq here
+		// would make every pair of instances trigger the extensionality axiom (sdiff / sat terms).
+		return Eq(a, b)
+	}
 	return App("streq", SBool, a, b)
 }
 func AbsB(row, off, n *Term) *Term { return App("absB", SStr, row, off, n) }
